@@ -65,7 +65,7 @@ def candidates(prog):
             yield p
             # unwrap
             inner = None
-            if n["t"] in ("with", "for", "elem", "provide") and n.get("c"):
+            if n["t"] in ("with", "for", "elem", "provide", "block", "include") and n.get("c"):
                 inner = n["c"]
             elif n["t"] == "if":
                 inner = n["a"] or n["b"]
